@@ -102,6 +102,10 @@ def c20_ast(fe):
             r = subprocess.run(cmd, stdout=open(out + '.tmp', 'w'), stderr=subprocess.PIPE, text=True)
             if r.returncode != 0:
                 return None, r.stderr
+            # clang's pretty printer: normalised text of variable templates (fold operators are not in the JSON dump)
+            cmd2 = ['clang++-14', '-std=c++20', '-fsyntax-only', '-Xclang', '-ast-print', '-Xclang',
+                    '-ast-dump-filter=covfie::utility'] + fe.includes() + [src]
+            subprocess.run(cmd2, stdout=open(out + '.print', 'w'), stderr=subprocess.PIPE, text=True)
             os.rename(out + '.tmp', out)
     return out, ''
 
